@@ -306,6 +306,31 @@ func runC09(c *ctx) {
 			keys = append(keys, k)
 		}
 		sort.Strings(keys)
+		if i%11 == 7 && tpl.Kind == ref.L && len(tpl.Children) >= 1 {
+			// the template keeps an ellipsis that is not filled (C09 does not expand ellipses), named as a parser or a
+			// caller may have named it; a key that looks like an ellipsis but names none of the template's is ignored
+			ename := []string{"...[0]", "...[2]", "...", "...[13]"}[r.Intn(4)]
+			t2 := tpl.Clone()
+			t2.Children = append(t2.Children, &ref.Item{Var: ename})
+			cs.Tpl = t2
+			var keep []string
+			for _, u := range cs.Unknown {
+				if u != ename {
+					keep = append(keep, u)
+				}
+			}
+			cs.Unknown = keep
+			for _, u := range []string{"...", "...[0]", "...[7]", "...[2]"} {
+				if u != ename {
+					cs.Unknown = append(cs.Unknown, u)
+					break
+				}
+			}
+			cs.Msg = nil
+			c.Class("unfilled-ellipsis-and-unknown-ellipsis-key")
+			c09Eval(c, cs)
+			return
+		}
 		if i%9 == 5 {
 			// a fill-in item that brings its own variable is inserted as is: a key naming that inner variable names no
 			// variable of the template and is ignored (single-step law only; composition is not quantified over these)
@@ -364,7 +389,7 @@ func runC09(c *ctx) {
 			c09Eval(c, cs)
 		}
 	})
-	c.Required = []string{"total-assignment", "partial-assignment", "empty-assignment", "out-of-domain-values", "refused-by-both", "split-into-2", "split-into-3", "message-level", "message-observed-before-fill", "fill-in-item-with-its-own-variable"}
+	c.Required = []string{"total-assignment", "partial-assignment", "empty-assignment", "out-of-domain-values", "refused-by-both", "split-into-2", "split-into-3", "message-level", "message-observed-before-fill", "fill-in-item-with-its-own-variable", "unfilled-ellipsis-and-unknown-ellipsis-key"}
 }
 
 func replayC09(c *ctx, raw json.RawMessage) {
